@@ -799,6 +799,8 @@ mutual
     | fuel+1, cx, isUpdate, parentPtr, s, t, path, extra, (f, fty) :: rest => do
       let fm := fieldCfgOf cx t f.name
       let plan ← (do
+        -- blank fields (`_ T`, never exported) cannot be referred to: never assigned
+        if !f.exported && f.name == ['_'] then return FieldPlan.skip f.name
         if fm.ignore then return FieldPlan.skip f.name
         if !f.exported && cx.cfg.common.ignoreUnexported then return FieldPlan.skip f.name
         if !fieldAccessible c f then fail .unexportedField
